@@ -182,5 +182,6 @@ pub fn run(run: &Run) {
     run.explore(&u2::LenUniverse { presents: u2::Presents::EveryUpTo(run.tier.pick(1024, 4096)), name: "U2-len/every-cut" });
     run.explore(&u2::CtlUniverse);
     run.explore(&u2::sig_universe());
+    run.explore(&u2::anybyte_universe());
     run.explore(&u2::byte_universe(run.tier.pick(3, 5)));
 }
